@@ -19,7 +19,18 @@ try:
         def demo():
             return subprocess.run(['/venv/bin/python', os.path.join(d, 'demo.py')], cwd=wt, capture_output=True, text=True, timeout=300)
         r0 = demo(); res['demo_clean_exit'] = r0.returncode
+        meta = json.load(open(os.path.join(d, 'meta.json')))
+        if meta.get('obsolete'):
+            print(name, 'OBSOLETE (not confirmed again)', flush=True)
+            continue
         a = subprocess.run(['git', '-C', wt, 'apply', os.path.join(d, 'patch.diff')], capture_output=True, text=True)
+        if a.returncode:      # later repairs moved neighbouring lines: same lenient application as tools/selftest.py
+            a = subprocess.run(['git', '-C', wt, 'apply', '-C1', '--recount', os.path.join(d, 'patch.diff')], capture_output=True, text=True)
+        if a.returncode:
+            a = subprocess.run(['patch', '-p1', '--fuzz=3', '-s', '-N', '--no-backup-if-mismatch', '-r', '-', '-i', os.path.join(d, 'patch.diff')], cwd=wt,
+                               capture_output=True, text=True)
+            if a.returncode:
+                subprocess.run(['git', '-C', wt, 'checkout', '--', '.'])
         res['applies'] = a.returncode == 0
         if a.returncode == 0:
             r1 = demo(); res['demo_patched_exit'] = r1.returncode; res['demo_patched_tail'] = (r1.stdout + r1.stderr)[-400:]
